@@ -12,6 +12,8 @@ ENVP = [M, M + "/ptrify", M + "/common", M + "/transform", M + "/parse", M + "/t
 FLAGP = ENVP + [M + "/sources/flag/flaghelper", "flag", "sort"]
 HELP = [M + "/parse", "strings", "unicode/utf8", "strconv", "go/token", "text/scanner", "bytes", "io", "sort"]
 EZP = ENVP + [M + "/sourcewrap", M + "/sources/env", "sort"]
+TFP = [M + "/ptrify", M + "/common", M + "/parse", M + "/tagformat/caseconversion", M + "/helper", "github.com/fatih/structtag", "sort",
+       "strings", "unicode/utf8", "strconv", "go/token", "text/scanner", "bytes", "io"]
 TEXT = ["strings", "unicode/utf8", "strconv", "text/scanner", "bytes", "io", "go/token"]
 
 COMMON_ASSUME = [
@@ -185,6 +187,13 @@ CHECKS = {
         "runs": [
             {"entry": M + "/ez.HarnessC18NoWatch", "pkgs": EZP, "must_reach": ["c18-end", "c18-verify-error", "c18-file-error"], "instrument": [M, M + "/sourcewrap", M + "/ez"], "validate": 0},
             {"entry": M + "/ez.HarnessC18Watch", "pkgs": EZP, "must_reach": ["c18-end"], "instrument": [M, M + "/sourcewrap", M + "/ez"], "validate": 0},
+        ],
+    },
+    "C10": {
+        "runs": [
+            {"entry": M + "/transform.HarnessC10SetSlice", "pkgs": TFP, "must_reach": ["c10-setslice-end"]},
+            {"entry": M + "/transform.HarnessC10Flatten", "pkgs": TFP, "must_reach": ["c10-flatten-end"]},
+            {"entry": M + "/transform.HarnessC10Chains", "pkgs": TFP, "must_reach": ["c10-chains-end"]},
         ],
     },
     "C14": {
